@@ -420,11 +420,15 @@ public:
     }
     // Check current block
     if (!head || offset + alignedSize > SourceHeap::AllocSize) {
-      size_t remaining = SourceHeap::AllocSize - offset;
+      // without a current block there is nothing that remains
+      size_t remaining = head ? SourceHeap::AllocSize - offset : 0;
       assert((remaining & (sizeof(double) - 1)) ==
              0); // should still be aligned
       if (!remaining) {
         refill();
+        // a fresh block offers AllocSize minus its header
+        if (offset + alignedSize > SourceHeap::AllocSize)
+          alignedSize = SourceHeap::AllocSize - offset;
       } else {
         alignedSize = remaining;
       }
